@@ -255,6 +255,30 @@ def run_types_engine(ctx, st):
                 m = mutate_record(rng, base, f, HINT)
                 cases.append({"kind": "H", "h": json_header(m)})
                 meta.append(("H", bi, f, m))
+    # byte fields aliasing BY VALUE: a field that was empty when the header was signed set to a copy of the signature, of the
+    # public key, of another field; two fields swapped; plus the same with empty-non-nil instead of nil slices.  (A writer that
+    # selects or omits a field by comparing contents instead of by position is invisible to random / bit-flip mutations.)
+    byte_fields = [f for f in HEADER_FIELDS if f not in HINT]
+    nb = len(bases)
+    alias_bases = [header_corpus()[1]] + [dict(rand_header(rng), Sign=rbytes(rng, 70), PubKey=rbytes(rng, 37), CoinbaseAccount=rbytes(rng, 33),
+                                                PrevBlockHash=rbytes(rng, 32)) for _ in range(1 if quick else 10)]
+    for full in alias_bases:
+        for f in byte_fields:
+            base = dict(full)
+            if f != "Sign":
+                base[f] = b""              # e.g. Consensus of an sbp/raft block, CoinbaseAccount when none is configured
+            bi = nb
+            nb += 1
+            cases.append({"kind": "H", "h": dict(json_header(base), EmptyNotNil=(bi % 2 == 1))})
+            meta.append(("H", bi, None, base))
+            srcs = ["Sign", "PubKey", rng.choice([g for g in byte_fields if g not in (f, "Sign", "PubKey")])]
+            for g in srcs:
+                if g == f or not full[g] or full[g] == base[f]:
+                    continue
+                m = dict(base)
+                m[f] = bytes(full[g])     # a copy: equal by value to another field of the same header
+                cases.append({"kind": "H", "h": dict(json_header(m), EmptyNotNil=(bi % 2 == 1))})
+                meta.append(("H", bi, f, m))
     tbases = tx_corpus() + [rand_tx(rng) for _ in range(3 if quick else 40)]
     for bi, base in enumerate(tbases):
         cases.append({"kind": "T", "t": json_tx(base)})
@@ -316,7 +340,8 @@ def run_types_engine(ctx, st):
                   "(fun c : header * bytes => let '(h, d) := c in bytes_eqb (block_hash sha256 h) d)", hhash_items, hhash_src)
     st.add_family("tx_hash", "txbody * bytes",
                   "(fun c : txbody * bytes => let '(t, d) := c in bytes_eqb (tx_hash sha256 t) d)", titems, tsrc)
-    st.rules.append("headers/txs: corpus + random records, each with every field mutated once (flip/append/prepend/truncate/empty/"
+    st.rules.append("value-alias headers: each byte field emptied then set to a copy of Sign / PubKey / another field (nil and empty-non-nil); "
+                    "headers/txs: corpus + random records, each with every field mutated once (flip/append/prepend/truncate/empty/"
                     "random bytes; +-1/bit/256^k/random ints); distinct = (record kind, mutated field, new length) classes")
     ctx.sample({"header_case": hsrc[1]["header"], "full_preimage": hsrc[1]["obs"]["full"][:80] + "..."})
 
